@@ -75,12 +75,12 @@ def check(ctx):
     ctx.samples.append({"calls": script[1:6]})
     t = ctx.drive(drv, script, "codec")
     bad = ctx.judge("CodecTrace", [t], shards=16)
+    for b in bad: b["driver"] = "drv_codec"
     # the second build configuration (size-optimised, plain char unsigned) on part of the executions
     ta = ctx.drive(ctx.cxx("drv_codec_alt", ["drv_codec.cpp", R + "/igris/util/hexascii.c", R + "/igris/string/hexascii_string.cpp", R + "/igris/util/base64.cpp"], alt=True), core.subset_executions(script, ctx.seed, 1.0 if ctx.thorough else 0.34), "codec_alt")
     bada = ctx.judge("CodecTrace", [ta], shards=16)
     for b in bada: b["driver"] = "drv_codec@alt"
     bad += bada
-    for b in bad: b["driver"] = "drv_codec"
     ctx.report(bad)
     ctx.assumptions += [
         "decoders are exercised on everything the encoders can produce (upper-case hex; padded RFC 4648 text in both alphabets), as the statement requires; their behaviour on malformed text is not constrained",
